@@ -10,6 +10,8 @@ the Rust text that exists in /repo *now*:
     transactions_confirmed                both are called with the block's own `height`
     best_block_updated / blocks_disconnected / OnchainTxHandler::transaction_unconfirmed
                                           the height handed to OnchainTxHandler::blocks_disconnected
+    filter_block / spends_watched_output   which transactions of a block reach the spend checks (`matches` translated; the
+                                          watch registrations in transactions_confirmed / check_spend_counterparty_htlc / block_confirmed pinned)
   chain/package.rs
     RevokedOutput::build, RevokedHTLCOutput::build   what is stored as `outpoint_confirmation_height`
     PackageSolvingData::input_confirmation_height    what `outpoints_and_creation_heights` reads back
@@ -255,6 +257,63 @@ def main(out_path):
     L.append('/-- channelmonitor.rs: ChannelMonitorImpl::blocks_disconnected(fork_point) and the re-org branch of best_block_updated(header, height)')
     L.append('    both call `onchain_tx_handler.blocks_disconnected(<new best height>, ..)` (pinned by text) -/')
     L.append('def monitorDisconnectNewBest (new_best_height : Nat) : Nat := new_best_height')
+    L.append('')
+    # ---- which transactions of a block reach the spend checks: filter_block ------------------------------------
+    params, ret, body = find_fn(cm, 'filter_block')
+    m = re.search(r'let mut matched_txn = new_hash_set\(\);\s*txdata\.iter\(\)\.filter\(\|&&\(_, tx\)\| \{(.*)\}\)\.map\(\|\(_, tx\)\| \*tx\)\.collect\(\)\s*\}\s*$', body, re.S)
+    if not m: raise TranslateError("filter_block: not `let mut matched_txn = ..; txdata.iter().filter(|&&(_, tx)| {..}).map(|(_, tx)| *tx).collect()`")
+    mt = re.match(r'(.*?)if matches \{\s*matched_txn\.insert\(tx\.compute_txid\(\)\);\s*\}\s*matches\s*$', m.group(1).strip(), re.S)
+    if not mt: raise TranslateError("filter_block: the closure does not end with `if matches { matched_txn.insert(tx.compute_txid()); } matches`")
+    head = mt.group(1).strip()
+    ml = re.fullmatch(r'let mut matches = ([^;]+);\s*for input in tx\.input\.iter\(\) \{\s*if matches \{ break; \}\s*if ([^{]+)\{\s*matches = true;\s*\}\s*\}', head, re.S)
+    me = re.fullmatch(r'let matches = ([^;]+);', head, re.S)
+    if ml: expr = '%s || tx.input.iter().any(|input| %s)' % (ml.group(1).strip(), ml.group(2).strip())
+    elif me: expr = me.group(1).strip()
+    else: raise TranslateError("filter_block: `matches` is computed in an unknown way: %r" % one(head)[:160])
+    def map_or(r, a):
+        if len(a) != 2: raise TranslateError("filter_block: map_or with %d arguments" % len(a))
+        return '(Option.elim %s %s %s)' % (r, a[0], a[1])
+    em = Emitter(methods={'spends_watched_output': lambda r, a: 'spends_watched', 'contains': lambda r, a: '(List.contains %s %s)' % (r, a[0]),
+                          'first': lambda r, a: '(List.head? %s)' % r, 'last': lambda r, a: '(List.getLast? %s)' % r,
+                          'get': lambda r, a: '(%s[%s]?)' % (r, a[0]), 'map_or': map_or},
+                 fields={'txid': lambda r: r, 'previous_output': lambda r: r, 'tx.input': 'input_txids'},
+                 env={'self': 'self', 'tx': 'tx', 'matched_txn': 'matched_txn'})
+    lean = em.e(parse_expr(expr))
+    if re.search(r'\b(self|tx)\b', lean): raise TranslateError("filter_block: `matches` reads something other than spends_watched_output(tx), tx.input and matched_txn: %s" % lean)
+    L.append('/-- channelmonitor.rs filter_block: a transaction of the block is handed to the spend checks iff `matches`, where')
+    L.append('    `%s`' % one(head))
+    L.append('    (`spends_watched` = spends_watched_output(tx) against the outputs watched BEFORE the block; `input_txids` = the txids of the')
+    L.append('    outputs its inputs spend, in input order; `matched_txn` = the transactions of this block matched so far) -/')
+    L.append('def filterMatches {α : Type} [BEq α] (spends_watched : Bool) (input_txids : List α) (matched_txn : List α) : Bool := ' + lean)
+    L.append('')
+    # spends_watched_output: ANY input, against outputs_to_watch[txid] by output index (the #[cfg(test)] witness self-check is not rendered)
+    params, ret, body = find_fn(cm, 'spends_watched_output')
+    b = re.sub(r'#\[cfg\(test\)\]\s*\{', '@@TEST{', body)
+    while '@@TEST{' in b:
+        i = b.index('@@TEST{'); j = match_brace(b, i + 6)
+        b = b[:i] + b[j:]
+    want = '{ for input in tx.input.iter() { if let Some(outputs) = self.get_outputs_to_watch().get(&input.previous_output.txid) { for (idx, _script_pubkey) in outputs.iter() { if *idx == input.previous_output.vout { return true; } } } } false }'
+    if one(b) != want: raise TranslateError("spends_watched_output changed: %s" % one(b)[:300])
+    # where outputs get watched: every output of a counterparty commitment; the claimed outputs of a revoked second-stage transaction;
+    # block_confirmed files them under their txid
+    params, ret, body = find_fn_where(cm, 'transactions_confirmed', '&mut self')
+    if not re.search(r'let mut new_watch_outputs = Vec::new\(\);\s*for \(idx, outp\) in tx\.output\.iter\(\)\.enumerate\(\) \{\s*new_watch_outputs\.push\(\(idx as u32, outp\.clone\(\)\)\);\s*\}\s*watch_outputs\.push\(\(txid, new_watch_outputs\)\);\s*let \(mut new_outpoints, counterparty_output_idx_sats\) =\s*self\.check_spend_counterparty_transaction\(', body):
+        raise TranslateError("transactions_confirmed no longer watches every output of a counterparty commitment before check_spend_counterparty_transaction")
+    if not re.search(r'if let Some\(new_outputs\) = new_outputs_option \{\s*watch_outputs\.push\(new_outputs\);\s*\}', body):
+        raise TranslateError("transactions_confirmed no longer watches the outputs returned by check_spend_counterparty_htlc")
+    params, ret, body = find_fn(cm, 'check_spend_counterparty_htlc')
+    if not re.search(r'claimable_outpoints\.push\(justice_package\);\s*if outputs_to_watch\.is_none\(\) \{\s*outputs_to_watch = Some\(\(htlc_txid, vec!\[\]\)\);\s*\}\s*outputs_to_watch\.as_mut\(\)\.unwrap\(\)\.1\.push\(\(idx as u32, tx\.output\[idx\]\.clone\(\)\)\);', body):
+        raise TranslateError("check_spend_counterparty_htlc no longer watches exactly the outputs it claims")
+    m = re.search(r'for \(idx, input\) in tx\.input\.iter\(\)\.enumerate\(\) \{\s*if ([^{]+)\{', body)
+    if not m or one(m.group(1)) != 'input.previous_output.txid == *commitment_txid && input.witness.len() == 5 && tx.output.get(idx).is_some()':
+        raise TranslateError("check_spend_counterparty_htlc: which inputs yield a claim changed: %r" % (one(m.group(1)) if m else None))
+    params, ret, body = find_fn(cm, 'block_confirmed')
+    if not re.search(r'watch_outputs\.retain\(\|&\(ref txid, ref txouts\)\| \{\s*let idx_and_scripts = txouts\.iter\(\)\.map\(\|o\| \(o\.0, o\.1\.script_pubkey\.clone\(\)\)\)\.collect\(\);\s*self\.outputs_to_watch\.insert\(txid\.clone\(\), idx_and_scripts\)\.is_none\(\)\s*\}\);', body):
+        raise TranslateError("block_confirmed no longer files the new watch outputs in outputs_to_watch")
+    L.append('/-- pinned by text: spends_watched_output(tx) = ANY input spends `outputs_to_watch[txid]` at a listed index; a counterparty commitment')
+    L.append('    gets ALL its outputs watched, a revoked second-stage transaction exactly the outputs claimed (input i spends the commitment with a')
+    L.append('    5-element witness and output i exists); block_confirmed files them under their txid; nothing removes them at a disconnection -/')
+    L.append('def watchRegistrationPinned : Bool := true')
     L.append('')
     L.append('end Ldk.JusticeGen')
     text = '\n'.join(L) + '\n'
